@@ -99,3 +99,82 @@ Definition sha2_32 (init : list int) (outw : nat) (msg : list byte) : list byte 
 
 Definition sha256 (msg : list byte) : list byte := sha2_32 H256_init 8 msg.
 Definition sha224 (msg : list byte) : list byte := sha2_32 H224_init 7 msg.
+
+
+(* ---------- SHA-384 / SHA-512: 64-bit words as (high, low) pairs of 32-bit
+   values in machine integers ---------- *)
+
+Definition w64 := (int * int)%type.
+
+Definition add64 (a b : w64) : w64 :=
+  let lo := snd a + snd b in
+  ((fst a + fst b + (lo >> 32)) land m32, lo land m32).
+Definition xor64 (a b : w64) : w64 := (fst a lxor fst b, snd a lxor snd b).
+Definition and64 (a b : w64) : w64 := (fst a land fst b, snd a land snd b).
+Definition not64 (a : w64) : w64 := (not32 (fst a), not32 (snd a)).
+(* rotate right by n, 0 < n < 64, n <> 32 *)
+Definition rotr64 (n : int) (a : w64) : w64 :=
+  if (n <? 32)%uint63 then
+    (((fst a >> n) lor (snd a << (32 - n))) land m32, ((snd a >> n) lor (fst a << (32 - n))) land m32)
+  else
+    let k := n - 32 in
+    (((snd a >> k) lor (fst a << (32 - k))) land m32, ((fst a >> k) lor (snd a << (32 - k))) land m32).
+(* shift right by n < 32 *)
+Definition shr64 (n : int) (a : w64) : w64 :=
+  (fst a >> n, ((snd a >> n) lor (fst a << (32 - n))) land m32).
+
+Definition ch64 x y z := xor64 (and64 x y) (and64 (not64 x) z).
+Definition maj64 x y z := xor64 (xor64 (and64 x y) (and64 x z)) (and64 y z).
+Definition bsig0_64 x := xor64 (xor64 (rotr64 28 x) (rotr64 34 x)) (rotr64 39 x).
+Definition bsig1_64 x := xor64 (xor64 (rotr64 14 x) (rotr64 18 x)) (rotr64 41 x).
+Definition ssig0_64 x := xor64 (xor64 (rotr64 1 x) (rotr64 8 x)) (shr64 7 x).
+Definition ssig1_64 x := xor64 (xor64 (rotr64 19 x) (rotr64 61 x)) (shr64 6 x).
+
+Definition K512 : list w64 := [(0x428a2f98,0xd728ae22);(0x71374491,0x23ef65cd);(0xb5c0fbcf,0xec4d3b2f);(0xe9b5dba5,0x8189dbbc);(0x3956c25b,0xf348b538);(0x59f111f1,0xb605d019);(0x923f82a4,0xaf194f9b);(0xab1c5ed5,0xda6d8118);(0xd807aa98,0xa3030242);(0x12835b01,0x45706fbe);(0x243185be,0x4ee4b28c);(0x550c7dc3,0xd5ffb4e2);(0x72be5d74,0xf27b896f);(0x80deb1fe,0x3b1696b1);(0x9bdc06a7,0x25c71235);(0xc19bf174,0xcf692694);(0xe49b69c1,0x9ef14ad2);(0xefbe4786,0x384f25e3);(0x0fc19dc6,0x8b8cd5b5);(0x240ca1cc,0x77ac9c65);(0x2de92c6f,0x592b0275);(0x4a7484aa,0x6ea6e483);(0x5cb0a9dc,0xbd41fbd4);(0x76f988da,0x831153b5);(0x983e5152,0xee66dfab);(0xa831c66d,0x2db43210);(0xb00327c8,0x98fb213f);(0xbf597fc7,0xbeef0ee4);(0xc6e00bf3,0x3da88fc2);(0xd5a79147,0x930aa725);(0x06ca6351,0xe003826f);(0x14292967,0x0a0e6e70);(0x27b70a85,0x46d22ffc);(0x2e1b2138,0x5c26c926);(0x4d2c6dfc,0x5ac42aed);(0x53380d13,0x9d95b3df);(0x650a7354,0x8baf63de);(0x766a0abb,0x3c77b2a8);(0x81c2c92e,0x47edaee6);(0x92722c85,0x1482353b);(0xa2bfe8a1,0x4cf10364);(0xa81a664b,0xbc423001);(0xc24b8b70,0xd0f89791);(0xc76c51a3,0x0654be30);(0xd192e819,0xd6ef5218);(0xd6990624,0x5565a910);(0xf40e3585,0x5771202a);(0x106aa070,0x32bbd1b8);(0x19a4c116,0xb8d2d0c8);(0x1e376c08,0x5141ab53);(0x2748774c,0xdf8eeb99);(0x34b0bcb5,0xe19b48a8);(0x391c0cb3,0xc5c95a63);(0x4ed8aa4a,0xe3418acb);(0x5b9cca4f,0x7763e373);(0x682e6ff3,0xd6b2b8a3);(0x748f82ee,0x5defb2fc);(0x78a5636f,0x43172f60);(0x84c87814,0xa1f0ab72);(0x8cc70208,0x1a6439ec);(0x90befffa,0x23631e28);(0xa4506ceb,0xde82bde9);(0xbef9a3f7,0xb2c67915);(0xc67178f2,0xe372532b);(0xca273ece,0xea26619c);(0xd186b8c7,0x21c0c207);(0xeada7dd6,0xcde0eb1e);(0xf57d4f7f,0xee6ed178);(0x06f067aa,0x72176fba);(0x0a637dc5,0xa2c898a6);(0x113f9804,0xbef90dae);(0x1b710b35,0x131c471b);(0x28db77f5,0x23047d84);(0x32caab7b,0x40c72493);(0x3c9ebe0a,0x15c9bebc);(0x431d67c4,0x9c100d4c);(0x4cc5d4be,0xcb3e42b6);(0x597f299c,0xfc657e2a);(0x5fcb6fab,0x3ad6faec);(0x6c44198c,0x4a475817)].
+Definition H512_init : list w64 := [(0x6a09e667,0xf3bcc908);(0xbb67ae85,0x84caa73b);(0x3c6ef372,0xfe94f82b);(0xa54ff53a,0x5f1d36f1);(0x510e527f,0xade682d1);(0x9b05688c,0x2b3e6c1f);(0x1f83d9ab,0xfb41bd6b);(0x5be0cd19,0x137e2179)].
+Definition H384_init : list w64 := [(0xcbbb9d5d,0xc1059ed8);(0x629a292a,0x367cd507);(0x9159015a,0x3070dd17);(0x152fecd8,0xf70e5939);(0x67332667,0xffc00b31);(0x8eb44a87,0x68581511);(0xdb0c2e0d,0x64f98fa7);(0x47b5481d,0xbefa4fa4)].
+
+Definition nth_w (l : list w64) (n : nat) : w64 := nth n l (0, 0).
+
+Record regs64 := mkR64 { qa : w64; qb : w64; qc : w64; qd : w64; qe : w64; qf : w64; qg : w64; qh : w64 }.
+
+Definition round64 (k : w64) (st : list w64 * regs64) : list w64 * regs64 :=
+  let (win, r) := st in
+  let wt := nth_w win 0 in
+  let t1 := add64 (add64 (add64 (add64 (qh r) (bsig1_64 (qe r))) (ch64 (qe r) (qf r) (qg r))) k) wt in
+  let t2 := add64 (bsig0_64 (qa r)) (maj64 (qa r) (qb r) (qc r)) in
+  let nw := add64 (add64 (add64 (ssig1_64 (nth_w win 14)) (nth_w win 9)) (ssig0_64 (nth_w win 1))) wt in
+  (tl win ++ [nw],
+   mkR64 (add64 t1 t2) (qa r) (qb r) (qc r) (add64 (qd r) t1) (qe r) (qf r) (qg r)).
+
+Definition compress64 (h : list w64) (block : list w64) : list w64 :=
+  let r0 := mkR64 (nth_w h 0) (nth_w h 1) (nth_w h 2) (nth_w h 3) (nth_w h 4) (nth_w h 5) (nth_w h 6) (nth_w h 7) in
+  let (_, r) := fold_left (fun st k => round64 k st) K512 (block, r0) in
+  [add64 (nth_w h 0) (qa r); add64 (nth_w h 1) (qb r); add64 (nth_w h 2) (qc r); add64 (nth_w h 3) (qd r);
+   add64 (nth_w h 4) (qe r); add64 (nth_w h 5) (qf r); add64 (nth_w h 6) (qg r); add64 (nth_w h 7) (qh r)].
+
+Fixpoint pair_words (ws : list int) : list w64 :=
+  match ws with
+  | a :: b :: r => (a, b) :: pair_words r
+  | _ => []
+  end.
+
+Definition pad512 (msg : list byte) : list byte :=
+  let l := length msg in
+  let r := Nat.modulo (l + 1) 128 in
+  let z := if Nat.leb r 112 then (112 - r)%nat else (240 - r)%nat in
+  msg ++ x80 :: repeat x00 z ++ be_bytes 16 (8 * Z.of_nat l) [].
+
+Fixpoint blocks64 (fuel : nat) (ws : list w64) (h : list w64) : list w64 :=
+  match fuel with
+  | O => h
+  | S f => match ws with [] => h | _ => blocks64 f (skipn 16 ws) (compress64 h (firstn 16 ws)) end
+  end.
+
+Definition sha2_64 (init : list w64) (outbytes : nat) (msg : list byte) : list byte :=
+  let ws := pair_words (words_be (pad512 msg)) in
+  firstn outbytes (flat_map (fun w => word_bytes (fst w) ++ word_bytes (snd w))
+                            (blocks64 (S (length ws / 16)) ws init)).
+
+Definition sha512 (msg : list byte) : list byte := sha2_64 H512_init 64 msg.
+Definition sha384 (msg : list byte) : list byte := sha2_64 H384_init 48 msg.
